@@ -809,7 +809,8 @@ class LuaASTEchoWriter(BaseLuaWriter):
         spaces_and_semis = []
         while True:
             spaces = self._get_code_for_spaces(node)
-            if self._tokens[self._pos].matches(lexer.TokSymbol(b';')):
+            if (self._pos < len(self._tokens) and
+                    self._tokens[self._pos].matches(lexer.TokSymbol(b';'))):
                 self._pos += 1
                 spaces_and_semis.append(spaces + b';')
             else:
@@ -1409,7 +1410,8 @@ class LuaMinifyWriter(LuaASTEchoWriter):
         spaces_without_semis = []
         while True:
             spaces = self._get_code_for_spaces(node)
-            if self._tokens[self._pos].matches(lexer.TokSymbol(b';')):
+            if (self._pos < len(self._tokens) and
+                    self._tokens[self._pos].matches(lexer.TokSymbol(b';'))):
                 self._pos += 1
                 # Insert a space where the semi was to prevent 'a;b' from
                 # becoming 'ab'.
